@@ -133,8 +133,9 @@ def build(case, log):
             kw['transform'] = lambda v: v[1:] if isinstance(v, str) and v.startswith('#') else v
         step = core.dataflows.set_type(name, regex=regex, **kw, **copy.deepcopy(t['opts']))
     else:
-        kw['resources'] = case.get('resources', None)
-        step = core.dataflows.validate(**kw)
+        if not case.get('default_res'):
+            kw['resources'] = case.get('resources', None)
+        step = core.dataflows.validate(**kw)       # default_res: the documented default (every resource) is left to the library
     return st, rows, other_rows, step
 
 
@@ -313,6 +314,7 @@ def cases(tier):
                 out.append({'via': 'set_type', 'type': tname, 'policy': pol, 'pattern': pat, 'name': ['f.', True], 'resources': 't'})
                 out.append({'via': 'set_type', 'type': tname, 'policy': pol, 'pattern': pat, 'name': ['f.', True], 'transform': True})
                 out.append({'via': 'validate', 'type': tname, 'policy': pol, 'pattern': pat, 'resources': 't'})
+                out.append({'via': 'validate', 'type': tname, 'policy': pol, 'pattern': pat, 'default_res': True})
                 if pol != 'raise' and len(pat) == 1:
                     # the same step object executed a second time must do the same again
                     out.append({'via': 'set_type', 'type': tname, 'policy': pol, 'pattern': pat, 'name': ['f.', True], 'twice': True})
